@@ -1,7 +1,7 @@
 (* C19 -- statements only; see DESIGN.md section 6 C19.  Theorems are added as the proofs land;
    the witnesses below are evaluated in the kernel on the whole-parser model. *)
 From Coq Require Import String.
-From MdIt Require Import Prims Tables Tree Render Core Dump Dispatch.
+From MdIt Require Import Prims Tables Escape Tree Render Core Dump Dispatch TreeProofs RenderProofs.
 Local Open Scope string_scope.
 Local Open Scope list_scope.
 Local Open Scope N_scope.
@@ -18,3 +18,37 @@ Example C19_witness_xhtml :
   bs "<p>" ++ [239; 191; 189] ++ bs "&lt;<br />
 </p>".
 Proof. vm_compute. reflexivity. Qed.
+
+
+(* every renderer event appends exactly its chunk to the output; the built-in serializer is
+   the concatenation of these chunks followed by NUL replacement (nothing else is emitted) *)
+Theorem C19_serializer_is_chunks : forall xhtml es,
+  serialize xhtml es = replace_nul (concat (chunks xhtml [] es)).
+Proof. exact serialize_chunks. Qed.
+
+(* a line-break event emits one line feed unless the output is empty or already ends with one *)
+Theorem C19_cr_rule : forall xhtml buf,
+  chunk xhtml (at_line_start buf) ECr = if at_line_start buf then [] else [10].
+Proof. reflexivity. Qed.
+
+(* XHTML differs from HTML only by " /" before '>' in self-close chunks: chunk by chunk *)
+Theorem C19_xhtml_vs_html : forall es,
+  Forall2 (fun e (p : str * str) => xchunk_rel e (fst p) (snd p)) es
+          (combine (chunks false [] es) (chunks true [] es)).
+Proof. intros es. exact (xhtml_vs_html es [] [] eq_refl). Qed.
+
+(* U+0000 never reaches the output, and output without U+0000 is left alone *)
+Theorem C19_no_nul : forall xhtml es, forallb (fun b => negb (b =? 0)) (serialize xhtml es) = true.
+Proof. intros. unfold serialize. apply replace_nul_no_nul. Qed.
+Theorem C19_nul_only : forall s, forallb (fun b => negb (b =? 0)) s = true -> replace_nul s = s.
+Proof. exact replace_nul_id. Qed.
+
+(* text events are escaped, raw text events are not *)
+Theorem C19_text_chunks : forall xhtml ls s,
+  chunk xhtml ls (EText s) = escape_html s /\ chunk xhtml ls (ERaw s) = s.
+Proof. intros. split; reflexivity. Qed.
+
+Print Assumptions C19_serializer_is_chunks.
+Print Assumptions C19_xhtml_vs_html.
+Print Assumptions C19_no_nul.
+Print Assumptions C19_nul_only.
